@@ -160,6 +160,19 @@ def encArray (a : PgArray) : Bytes :=
 
 /-! ### what a correct tool must report -/
 
+/-- the value of a variable-length element whose payload is empty: the empty string for the text-like types (text,
+varchar, bpchar, xml), `\\x` for bytea; no other element type of the table has values with an empty payload -/
+def emptyValue (oid : Nat) : Option GoVal :=
+  if oid = 25 ∨ oid = 1043 ∨ oid = 1042 ∨ oid = 142 then some (.str [])
+  else if oid = 17 then some (.str [92, 120])
+  else none
+
+/-- one stored element: the scalar decoding of its bytes (an empty string is a value, not NULL) -/
+def elemView (dec : Bytes → Nat → M GoVal) (oid : Nat) : Datum → M GoVal
+  | .fixed bs => dec bs oid
+  | .short p => if p.length = 0 then (match emptyValue oid with | some v => pure v | none => dec p oid) else dec p oid
+  | .long p => if p.length = 0 then (match emptyValue oid with | some v => pure v | none => dec p oid) else dec p oid
+
 /-- the elements in storage (row-major) order: nil for a NULL, the scalar decoding of its bytes otherwise
 (a fault of the scalar decoder aborts the array) -/
 def viewElems (dec : Bytes → Nat → M GoVal) (oid : Nat) : List (Option Datum) → M (List GoVal)
@@ -168,7 +181,7 @@ def viewElems (dec : Bytes → Nat → M GoVal) (oid : Nat) : List (Option Datum
     let r ← viewElems dec oid es
     pure (GoVal.nil :: r)
   | some d :: es => do
-    let v ← dec d.payload oid
+    let v ← elemView dec oid d
     let r ← viewElems dec oid es
     pure (v :: r)
 
